@@ -13,10 +13,11 @@ import (
 	"strings"
 )
 
-// Val is a tagged value (DESIGN 2.3): t = n|x|s|i|b|f|e|l|o|r|v|fn.
+// Val is a tagged value (DESIGN 2.3): t = n|x|s|i|b|f|e|l|o|r|v|fn|ctr.
 //
 //	n null, x absent, s string, i int, b bool, f float (as string), e enum (as string), l list, o ordered object,
-//	r reference to an object of the universe, v variable reference, fn value depending on one argument.
+//	r reference to an object of the universe, v variable reference, fn value depending on one argument,
+//	ctr root mutation field that adds its Int argument A to the world's counter and returns the new value.
 type Val struct {
 	T string
 	S string // s, f, e, r, v
@@ -111,6 +112,9 @@ func (v Val) MarshalJSON() ([]byte, error) {
 			return nil, err
 		}
 		return []byte(`{"t":"o","k":` + string(kb) + `,"v":` + string(vb) + `}`), nil
+	case "ctr":
+		a, _ := json.Marshal(v.A)
+		return []byte(`{"t":"ctr","a":` + string(a) + `}`), nil
 	case "fn":
 		m, _ := json.Marshal(v.M)
 		d, _ := json.Marshal(v.D)
@@ -151,6 +155,8 @@ func (v *Val) UnmarshalJSON(b []byte) error {
 		}
 		v.L = []Val{}
 		return json.Unmarshal(raw.V, &v.L)
+	case "ctr":
+		v.A = raw.A
 	case "fn":
 		v.A, v.M, v.D = raw.A, raw.M, raw.D
 	default:
